@@ -24,7 +24,7 @@ def mk(k,n):
         if random.random()<.3: fs.append(rng.integers(0,100,(n,random.randint(1,3))))
         else: fs.append(rng.integers(0,100,n) if random.random()<.7 else rng.random(n))
     return fs
-for it in range(30000):
+for it in range(int(__import__("os").environ.get("RECON_N", 30000))):
     k=random.randint(1,3); n=random.randint(0,6); fs=mk(k,n); C=CL[k]
     o,err=run(lambda: C(*fs))
     if err: buckets[('ctor',err,'n0' if n==0 else '')].append((k,n)); continue
